@@ -130,7 +130,8 @@ def check_case(ctx, batch, tag, nodes, root, big=False, opts=D.OPTS):
                                 and got['roots'] == lst['roots']) else 'flat listing differs from the Python reader'
             if why2:
                 ctx.fail(f'nonconforming-lean:{OPT_NAME[o]}:{_norm(why2)}', f'Lean strict reader on to_boc{o} output: {why2}', finp, why2, 'same DAG')
-        if big and (o != (1, 1, 1) or big == 'flat'):
+        # the semantic layer depends only on the records, which are identical for all option sets (checked through the flat listing)
+        if (o != (1, 1, 1) and (big or o != (0, 0, 0))) or big == 'flat':
             batch.add('bocflat ' + b.hex(), lambda ans, f=on_strict: f(ans, full=False))
         else:
             batch.add('bocstrict ' + b.hex(), on_strict)
